@@ -190,6 +190,12 @@ func VerifC36_roundTrip() {
 	id := verifNondetUint32("id")
 	depth := verifChoose(verifC36MaxDepth() + 1)
 	index := verifC36Index("idx", depth)
+	if depth >= 3 {
+		// depth 3 only adds a loop iteration: keep its values in the one-byte varint range
+		for _, v := range index {
+			verifAssume(verifAnd(v >= -64, v <= 63))
+		}
+	}
 	plen := 2
 	if depth == 0 {
 		plen = verifChoose(3)
